@@ -6,11 +6,8 @@ two consecutive reference events (timed) / at every loop-iteration index of the 
 """
 from __future__ import annotations
 
-import os
-from typing import Any
-
 from ..core import JobResult, Violation, digest
-from ..progmc import INF, Alphabet, Real, RefSet, fmt, fmt_traces, from_json, has_op, size, skeleton, to_json
+from ..progmc import INF, Alphabet, Real, RefSet, fmt, fmt_traces, from_json, has_op, shape, size, to_json
 
 PROPERTY = "C13"
 LEVEL = "exploration"
@@ -32,17 +29,20 @@ RULE = (
     "ALL programs of the grammar sleep(d) | yield_ | shielded_yield | move_on_after(D){P} | timeout(D){P} | scope(deadline){P} | "
     "cancel(k) | reschedule(k, now+D) | shield{P} | group{P || P} with at most N nodes (see tier_bounds) and container nesting <= 3, "
     "enumerated deterministically (no sampling), x external task.cancel() in {none} + {midpoint between every two consecutive "
-    "instants of the reference trace (timed event)} + {EVERY loop-iteration index of the cancel-free run (untimed event applied "
-    "inside select())}. Reductions: (1) 'mark' is not enumerated because the interpreter records the completion of every "
+    "instants of the reference trace (timed event)} + {EVERY loop-iteration index of the cancel-free run from the program's first step "
+    "to its end (untimed event applied inside select(); the index before the first step only for programs of <= 2 nodes)}. Reductions: (1) 'mark' is not enumerated because the interpreter records the completion of every "
     "statement, which is exactly what a mark after it would record (a mark executes no library code); (2) a program starts "
     "with a scope/shield/group statement (a leading sleep/yield only shifts the time origin of relative delays); (3) empty "
     "shield{} and a group with an empty child are dropped (no-ops); (4) move_on_after(inf) == open_cancel_scope() is enumerated once "
     "(as scope(inf)); (5) cancel/reschedule only address scopes that exist (k < number of enclosing scopes, counted through group "
     "boundaries so that a child task cancels a scope of its parent). Pairs with two timers (or the injection) within 10 ms of each other are "
-    "skipped and counted (skipped_ties); runs in which a cancel issued by ANOTHER task hits a task within 10 ms of another "
-    "cancellation cause of that task are checked with the order-independent clauses only (race_clause_only). "
-    "distinct_nontrivial = distinct (program shape without constants, injection kind, task outcome, (cancel_called, cancelled_caught) of every scope) "
-    "among runs in which an external cancel was actually delivered"
+    "skipped and counted (skipped_ties); (program, injection) pairs whose reference trace depends on the sub-instant latency of a "
+    "cancellation wake-up / child-finished notification between TASKS (27 scheduling policies compared), or in which a cancel issued by another "
+    "task falls within 10 ms of another cancellation cause of the same task, are same-instant races: they are executed and checked with the "
+    "order-independent clauses only (race_clause_only). Where the statement allows two behaviours (an inner cancelled scope inside a cancelled "
+    "enclosing scope may catch or propagate) every resolution is an accepted reference trace (latitude_catch_or_propagate). "
+    "distinct_nontrivial = distinct (program shape = nesting of the scope/shield/group statements + set of leaf statements used, injection kind, "
+    "where the cancel landed, task outcome, (cancel_called, cancelled_caught) of every scope in exit order) among runs in which an external cancel was actually delivered"
 )
 ASSUMPTIONS = [
     "shield semantics checked: nothing raises inside ignore_cancellation, *including* for a scope entered inside it whose deadline passes or which is cancelled there "
@@ -169,9 +169,10 @@ def judge(prog: tuple, inject: tuple | None, refs: RefSet | None, real: Real, mo
                 if has_op(prog, ("group",)):
                     fam += "+group"
                 found.append((f"trace/{fam}/{sym}", text))
-    if kind == "iter":
+    if kind != "none":
+        # clause form (valid for every injection; the only oracle for iteration-indexed ones and for same-instant races)
         if inj is None:
-            return found, "iter:late(no-op)"
+            return found, f"{kind}:late(no-op)"
         if root is not None:
             k = inj["select"]
             after = [e for e in root.events if e[-2] >= k]
@@ -187,13 +188,13 @@ def judge(prog: tuple, inject: tuple | None, refs: RefSet | None, real: Real, mo
                 found.append(("external-cancel/" + situation(inj) + tail, "; ".join(bad) + f"; at injection: cancelling()={inj['cancelling_before']}, cancelled scopes {inj['scopes_cancel_called']}, "
                               f"task.cancelling() at end={root.task.cancelling()}"))
             if not need and outcome != "cancelled":
-                return found, "iter:" + outcome + "(no checkpoint left)"
+                return found, f"{kind}:{outcome}(no checkpoint left)"
     return found, f"{kind}:{outcome}"
 
 
 def shape_digest(prog: tuple, kind: str, real: Real) -> str:
-    flags = tuple((e[1], e[2], e[3]) for T in real.tasks for e in T.events if e[0] == "exit")
-    return digest((skeleton(prog), kind, real.root.outcome if real.root else None, flags))
+    flags = tuple((e[2], e[3]) for T in real.tasks for e in T.events if e[0] == "exit")
+    return digest((shape(prog), kind, situation(real.inj), real.root.outcome if real.root else None, flags))
 
 
 def check_program(prog: tuple, res: JobResult, sink: _Sink) -> None:
@@ -245,7 +246,9 @@ def check_program(prog: tuple, res: JobResult, sink: _Sink) -> None:
             continue
         one(("t", x), refsx, "trace")
     if real0.status == "ok":
-        for k in range(2, real0.sel_end + 1):
+        # select #1 runs the harness' main(), #2 is the boundary before the program's first step: a task cancelled there never
+        # executes a line of the program or of the library (pure asyncio) - exercised for the smallest programs only
+        for k in range(2 if size(prog) <= 2 else 3, real0.sel_end + 1):
             one(("i", k), None, "clause")
 
 
